@@ -297,6 +297,17 @@ pub fn gen_texts(seed: u64, n: usize) -> Vec<J> {
         };
         out.push(json!({"kind":"text","text":text,"inputs": if j % 5 == 0 { J::String(format!("{{\"n\": {lit}}}")) } else { J::Null }}));
     }
+    // every spelling of every unit identifier (as listed, upper-cased, lower-cased, capitalised - non-ASCII letters included) as
+    // an argument of convert: the natural boundary pool of that built-in
+    {
+        let table = crate::c17::export();
+        for (k, v) in table["variants"].as_array().unwrap().iter().enumerate() {
+            let v = v.as_str().unwrap();
+            if v.contains('"') || v.contains('\\') { continue; }
+            let text = match k % 3 { 0 => format!("convert(1, \"{v}\", \"m\")"), 1 => format!("convert(1, \"kg\", \"{v}\")"), _ => format!("convert(2, \"{v}\", \"{v}\")") };
+            out.push(json!({"kind":"text","text":text,"inputs":J::Null}));
+        }
+    }
     // grammar-directed whole programs (well-formed, mostly evaluating), with inputs
     for i in 0..n / 2 {
         let text = crate::proggen::program(&mut r);
